@@ -9,6 +9,14 @@ PARTS = {"C04": "C04R", "C05": "C05R"}
 DUO = ("C06", "C07", "C16")   # FSM part (one real node against a simulated, possibly dishonest peer) + two real nodes against each other
 
 
+def _partial_evidence(prop, tier, r, ver, t0, err):
+    """one part of a two-part check failed (machinery) after the other part had already found violations: the evidence says so"""
+    cov = dict(states=r["states"], transitions=r["transitions"], traces_validated_against_impl=r["nschedules"], samples=r["samples"][:3],
+               fsm_part=dict(models=r["models"], schedules=r["nschedules"], events=r["nevents"], drift=r["ndrift"]),
+               other_part_failed=str(err)[:300], known_findings=sorted(ver.known), new_violations=sorted(ver.new))
+    vp.write_evidence(prop, tier, "model_checking", cov, time.time() - t0, len(ver.new), assumptions=["FSM part only: the other part of this check failed (machinery error)"])
+
+
 def run_tx(prop, txprop, tier, mod=tx):
     """C01 = FSM clause (when the taker pays; swapfsm) + validator clause (which transactions the real validators accept; tx).
     C08 = message assembly and invoice clauses (swapfsm) + txid / vout / blinding key of the real opening paths (tx)."""
@@ -19,9 +27,16 @@ def run_tx(prop, txprop, tier, mod=tx):
         if x["sig"].startswith(prop + "|"):
             ver.add(x["sig"], vp.save_replay(prop, "sched-%s.json" % vp.sig_id(x["sig"]), dict(signature=x["sig"], schedule=x["schedule"])))
     rc1 = ver.report()
-    rc2 = mod.run(txprop, tier)      # prints its own VIOLATION / KNOWN-FINDING lines under the parent property id
-    if rc2 not in (0, 1):
-        raise vp.Fatal("tx part failed")
+    try:
+        rc2 = mod.run(txprop, tier)      # prints its own VIOLATION / KNOWN-FINDING lines under the parent property id
+        if rc2 not in (0, 1):
+            raise vp.Fatal("second part failed (rc=%s)" % rc2)
+    except vp.Fatal as e:
+        if rc1:      # a violation on the real code stands, whatever happened to the other part's machinery
+            vp.log("the other part of this check failed (machinery), the violations above stand: %s" % str(e)[:300])
+            _partial_evidence(prop, tier, r, ver, t0, e)
+            return 1
+        raise
     import json
     import os
     ev = json.load(open(os.path.join(vp.EVID, txprop + ".json")))
@@ -54,7 +69,15 @@ def run(prop, tier):
         if x["sig"].startswith(prop + "|"):
             rp = vp.save_replay(prop, "sched-%s.json" % vp.sig_id(x["sig"]), dict(signature=x["sig"], schedule=x["schedule"]))
             ver.add(x["sig"], rp)
-    p = duo.part(prop, tier) if prop in DUO else route.part(PARTS[prop], tier)
+    try:
+        p = duo.part(prop, tier) if prop in DUO else route.part(PARTS[prop], tier)
+    except vp.Fatal as e:
+        if ver.new:      # a violation on the real code stands, whatever happened to the other part's machinery (e.g. model/code drift there)
+            rc = ver.report()
+            vp.log("the other part of this check failed (machinery), the violations above stand: %s" % str(e)[:300])
+            _partial_evidence(prop, tier, r, ver, t0, e)
+            return rc
+        raise
     for sig, rp in p["violations_new"].items():
         ver.new.setdefault(sig, rp)
     for sig, txt in p["known"].items():
